@@ -456,6 +456,7 @@ type GenCfg struct {
 	SelfLead       bool // the script starts with a send whose source is also its destination (one of the main send's source accounts)
 	SmallPool  bool // only three account names: repetition within one source becomes the norm
 	NoWorldVars  bool // account variables are never bound to "world"
+	WorldSub     bool // some mentions of @world are look-alikes: @world:fees, @worldwide (ordinary accounts)
 	NumberSpellings bool // number literals with leading zeros / explicit minus zero (parser properties)
 	CallWeight   int  // weight of set_tx_meta / set_account_meta statements (default 18, sends weigh 70)
 	LiteralSaves bool // save statements use literal amounts and accounts only
@@ -538,6 +539,9 @@ func (g *Gen) freshName() string {
 
 func (g *Gen) account() string {
 	if g.r.Intn(1000) < g.cfg.WorldProb {
+		if g.cfg.WorldSub && g.r.Chance(1, 3) {
+			return g.r.Pick([]string{"world:fees", "world:a", "worldwide", "users:world"}) // NOT the world account
+		}
 		return "world"
 	}
 	if g.cfg.SmallPool {
@@ -582,11 +586,17 @@ func (g *Gen) portionText(num, den *big.Int) string {
 					if g.r.Chance(1, 6) {
 						s = "0" + s // leading zero
 					}
+					if g.r.Chance(1, 6) {
+						return s + "." + strings.Repeat("0", 1+g.r.Intn(3)) + "%" // 50.0%, 50.00%
+					}
 					return s + "%"
 				}
 				ip, fp := s[:len(s)-k], s[len(s)-k:]
 				if g.r.Chance(1, 6) {
 					ip = "0" + ip
+				}
+				if g.r.Chance(1, 4) {
+					fp += strings.Repeat("0", 1+g.r.Intn(2)) // 2.50%, 12.500%
 				}
 				return ip + "." + fp + "%"
 			}
@@ -750,6 +760,11 @@ func (g *Gen) numberLit() *GExpr {
 	// literals must fit in an int (finding F-D10); larger amounts go through variables
 	if !n.IsInt64() {
 		n = bi(int64(g.r.Intn(1000)))
+	}
+	if g.r.Chance(1, 40) {
+		// the ends of the int range, and their neighbours
+		n = new(big.Int).Set([]*big.Int{new(big.Int).Sub(pow2(63), bi(1)), new(big.Int).Neg(pow2(63)), new(big.Int).Sub(pow2(63), bi(2)),
+			new(big.Int).Add(new(big.Int).Neg(pow2(63)), bi(1)), pow2(62), pow2(32)}[g.r.Intn(6)])
 	}
 	e := &GExpr{Kind: XNumber, N: n}
 	if g.cfg.NumberSpellings && g.r.Chance(1, 5) {
